@@ -57,6 +57,17 @@ def wCross : NContent :=
     derived := [("d1", ⟨1, ["x", "q"]⟩)]
     rxns := [("r", { rate := ⟨2, ["d1", "k"]⟩, stoich := [("x", .num (-1))] })] }
 
+/-- the class repaired by `fix: a function name generated for an initial assignment or a computed stoichiometry is
+    taken from then on`: initial assignments with functions called `a` and `a_` next to a derived function called
+    `init_a` (keys `init_a_`, `init_a__`; both were `init_a_` before), and a reaction whose two computed
+    coefficients use different functions that are both called `f2` (keys `r_stoich_f2`, `r_stoich_f2_`; one
+    definition replaced the other before) -/
+def wFresh : NContent :=
+  { fns := [pAdd "a", pMul "a_", pSub "init_a", pAdd "f2", pMul "f2", pSub "g"]
+    vars := [("x", .plain 1)], pars := [("k", .plain 3), ("q1", .ia ⟨0, ["k", "x"]⟩), ("q2", .ia ⟨1, ["k", "x"]⟩)]
+    derived := [("d1", ⟨2, ["q1", "q2"]⟩)]
+    rxns := [("r", { rate := ⟨5, ["d1", "k"]⟩, stoich := [("x", .dyn ⟨3, ["k", "q1"]⟩), ("y", .dyn ⟨4, ["k", "q2"]⟩)] })] }
+
 theorem canonical_of_all2 (c : NContent)
     (h2 : ∀ u ∈ Use.all c, u.args.length = 2)
     (hf : ∀ u ∈ Use.all c, ∀ vs, (c.pyfn u.fid).fn vs = (c.pyfn u.fid).fn [vs.getD 0 0, vs.getD 1 0]) :
@@ -83,6 +94,12 @@ theorem wCross_canonical : Canonical wCross := by
   · intro u hu vs; simp [Use.all, wCross] at hu
     rcases hu with rfl | rfl | rfl <;> simp [NContent.pyfn, wCross, pSub, pAdd, pMul]
 
+theorem wFresh_canonical : Canonical wFresh := by
+  apply canonical_of_all2
+  · intro u hu; simp [Use.all, wFresh] at hu; rcases hu with rfl | rfl | rfl | rfl | rfl | rfl <;> rfl
+  · intro u hu vs; simp [Use.all, wFresh] at hu
+    rcases hu with rfl | rfl | rfl | rfl | rfl | rfl <;> simp [NContent.pyfn, wFresh, pSub, pAdd, pMul]
+
 theorem wDimer_canonical : Canonical wDimer := by
   intro u hu vs
   simp [Use.all, wDimer] at hu
@@ -92,6 +109,12 @@ theorem wDimer_canonical : Canonical wDimer := by
 /-- result of a round trip followed by `model(t, xs)` -/
 def rtCall (bad : List String) (c : NContent) (t : Rat) (xs : List Rat) : Except Err (List Rat) :=
   (roundTrip bad c).bind fun c' => callRhs c' t xs
+
+/-- keys of the emitted definitions, in emission order -/
+def defKeys (c : NContent) : List String :=
+  match (toSymbolicRepr [] c).bind genMxlpy with
+  | .ok p => p.defs.map (·.1)
+  | .error _ => []
 
 def isSyntaxError {α} : Except Err α → Bool
   | .error (.other "SyntaxError") => true
